@@ -32,6 +32,9 @@ var concSpecs = []concSpec{
 	{"{ // {allOf: \"@base\"}\n  \"own\": true\n}", [][2]string{{"@base", "{\n  \"b\": 1,\n  \"c\": \"s\" // {optional: true}\n}"}}, []string{`{"own":false,"b":2}`, `{"own":true}`, `{"b":1,"own":true,"c":"x"}`}},
 	{"{\n  \"bad\": 1 // {min: 5}\n}", nil, []string{`{"bad":7}`}},
 	{"[ // {minItems: 1}\n  1.5 // {type: \"decimal\", precision: 2}\n]", nil, []string{`[1.25, 2]`, `[1.255]`, `[]`}},
+	// unnamed keys decided by a schema type name: every value goes through the package-level type guesser
+	{"{ // {additionalProperties: \"integer\"}\n  \"a\": 1\n}", nil, []string{`{"a":1,"x":5,"y":7}`, `{"a":1,"x":"s"}`, `{"a":1,"p":2.5}`, `{"a":2,"q":true,"r":3}`}},
+	{"{ // {additionalProperties: \"string\"}\n}", nil, []string{`{"x":"1.5","y":"a.b"}`, `{"x":1}`, `{"k":"v","l":"w","m":"z"}`, `{"x":null}`}},
 }
 
 func buildConc(sp concSpec, sharedTypes map[string]*js.Schema) *js.Schema {
